@@ -713,3 +713,111 @@ func consumedTypeOf(v ssa.Value) bool {
 	}
 	return false
 }
+
+// R-MULTI-CONTRACT (C05): declaring a process under several provider names counts as
+// splitting it, so it requires a contractable type.
+func init() {
+	register(&Rule{Name: "R-MULTI-CONTRACT", Min: 1,
+		Doc: "below the typechecking driver there is a contraction test (IsContractable/AllowsContraction) on a top-level process's own type whose false edge is an error and which is reached whenever the process has more than one provider name",
+		Run: runMultiContract})
+	ruleUsesCallGraph["R-MULTI-CONTRACT"] = true
+}
+
+func runMultiContract(p *Program, r *RuleResult) {
+	d := findTypecheckDriver(p)
+	reach := p.reachableFuncs([]*ssa.Function{d.Driver}, useCHA)
+	r.count("functions below the driver", len(reach))
+	found := ""
+	partial := ""
+	for _, fn := range sortedFuncs(reach) {
+		if fn.Blocks == nil || !p.isFirstParty(fn) {
+			continue
+		}
+		view := p.View(fn)
+		for _, c := range p.callsIn(fn) {
+			call, ok := c.(*ssa.Call)
+			if !ok {
+				continue
+			}
+			com := call.Common()
+			var arg ssa.Value
+			if sc := com.StaticCallee(); sc != nil && sc.Name() == "IsContractable" && len(com.Args) == 1 {
+				arg = com.Args[0]
+			} else if com.IsInvoke() && com.Method.Name() == "AllowsContraction" {
+				if mc, ok := com.Value.(*ssa.Call); ok && mc.Common().IsInvoke() && mc.Common().Method.Name() == "Modality" {
+					arg = mc.Common().Value
+				}
+			}
+			if arg == nil {
+				continue
+			}
+			// the argument must be the Type field of a Process
+			ld, ok := origin(arg).(*ssa.UnOp)
+			if !ok {
+				continue
+			}
+			fa, ok := ld.X.(*ssa.FieldAddr)
+			if !ok || !isNamed(fa.X.Type(), processPkg, "Process") {
+				continue
+			}
+			if _, n, _ := fieldNameOf(fa); n != "Type" {
+				continue
+			}
+			// false edge must be an error return
+			errExit := false
+			for _, b := range view.Blocks() {
+				if !view.holdsAt(b, call, factFalse) {
+					continue
+				}
+				ins := view.Instrs(b)
+				if ret, ok := ins[len(ins)-1].(*ssa.Return); ok && len(ret.Results) > 0 && isErrorValue(ret.Results[len(ret.Results)-1], view, b, map[ssa.Value]bool{}) {
+					errExit = true
+				}
+			}
+			if !errExit {
+				partial = "a contraction test on a process type exists at " + p.instrPos(call) + " but its false edge is not an error"
+				continue
+			}
+			// reached whenever len(Providers) > 1: the only branch facts between the loop over
+			// processes and the test may be on len(<same process>.Providers) compared with 1
+			okGuard := true
+			for f := range view.FactsAt(call.Block()) {
+				bo, isB := f.v.(*ssa.BinOp)
+				if !isB {
+					continue
+				}
+				if lc, isL := bo.X.(*ssa.Call); isL {
+					if bi, isBi := lc.Common().Value.(*ssa.Builtin); isBi && bi.Name() == "len" && strings.HasSuffix(accessPath(lc.Common().Args[0]), ".Providers") {
+						// len(Providers) > 1 true, or len(Providers) <= 1 false etc.
+						cst, isC := bo.Y.(*ssa.Const)
+						if !isC {
+							okGuard = false
+							continue
+						}
+						n := cst.Int64()
+						holdsForTwoOrMore := (bo.Op.String() == ">" && n <= 1 && f.k == factTrue) || (bo.Op.String() == ">=" && n <= 2 && f.k == factTrue) ||
+							(bo.Op.String() == "<=" && n <= 1 && f.k == factFalse) || (bo.Op.String() == "<" && n <= 2 && f.k == factFalse) ||
+							(bo.Op.String() == "==" && n == 1 && f.k == factFalse) || (bo.Op.String() == "!=" && n == 1 && f.k == factTrue)
+						if !holdsForTwoOrMore {
+							okGuard = false
+						}
+					}
+				}
+			}
+			if okGuard {
+				found = fnName(fn) + " at " + p.instrPos(call)
+			} else {
+				partial = "the contraction test at " + p.instrPos(call) + " is guarded by a provider-count condition that excludes some count > 1"
+			}
+		}
+	}
+	fn := fnName(d.Driver)
+	if found != "" {
+		r.add(fn, "multi-provider-contraction-gate", Holds, "", "gate found in "+found)
+	} else {
+		if partial == "" {
+			partial = "no contraction test on a top-level process's type exists below the driver: 'prc[a, b] : lin 1 = …' duplicates a linear process"
+		}
+		r.add(fn, "multi-provider-contraction-gate", Violated, p.pos(d.Driver.Pos()), partial)
+	}
+}
